@@ -197,6 +197,21 @@ func (t *Table) forgetIndex(id int) {
 }
 
 func (t *Table) forgetForeignKey(id int) {
+	// take back the mark AddForeignKey left on the column
+	for i := range t.Columns {
+		if t.Columns[i].Name != t.ForeignKeys[id].Column {
+			continue
+		}
+
+		opts := t.Columns[i].CurrentAttr.Options
+		for j := len(opts) - 1; j >= 0; j-- {
+			if opts[j].Tp == ast.ColumnOptionReference && opts[j].Refer == nil {
+				t.Columns[i].CurrentAttr.Options = append(opts[:j:j], opts[j+1:]...)
+				break
+			}
+		}
+	}
+
 	delete(t.indexForeignKeys, t.ForeignKeys[id].Name)
 	t.ForeignKeys = append(t.ForeignKeys[:id], t.ForeignKeys[id+1:]...)
 	for k, v := range t.indexForeignKeys {
